@@ -39,7 +39,9 @@ def value_alphabets(outs, tier):
     strings = [b'plain', b'with inner  spaces', b'"q"', b"'q'", b'""q""', b"''q''", b'" lead trail "', b"' x '", b'a#b', b'a:b=c', b'x ;c', b'x;y', b'', b'"', b"'", b'"unbal',
                b'%{cmdline}', b"\"'%{cmdline}'\"", b'\'"x"\'', b'"it\'s"', b'only_uid:0;exclude_uid:1',
                # quotes of different kinds at the two ends are not a pair
-               b'"q\'', b'\'q"', b'"%{username}" ran \'%{cmdline}\'', b'\'a" "b\'', b'"\'', b'\'"']
+               b'"q\'', b'\'q"', b'"%{username}" ran \'%{cmdline}\'', b'\'a" "b\'', b'"\'', b'\'"',
+               # values whose parsed form is exactly one quote or blank character
+               b'"""', b"'''", b'\'"\'', b'"\'"', b'" "', b'"\t"', b"' '"]
     bools = [bytes([c]) for c in b'yYtT1nNfF0'] + [b'x', b'', b'yes', b'no', b'maybe', b'2', b'TRUE', b'off', b'on']
     fac, lvl = [], []
     for n in refini.FACILITIES:
@@ -57,7 +59,9 @@ def value_alphabets(outs, tier):
     for suf in (b'', b'k', b'K', b'm', b'M'):
         for n in (0, 1, 7, 254, 255, 256, 1023, 1024, 1025, 2047, 2048, 1048575, 1048576, 1048577, 2147483647, 2147483648, 4294967295, 4294967296, 4294967297, 99999999999999999999):
             nums.append(b'%d' % n + suf)
-    nums += [b'7x', b'7 k', b'k', b'-1', b'+300', b'-7k', b' 300', b'3e3', b'0x100', b'1.5k', b'', b'12kk', b'12mk', b'007', b'0300', b'300 ', b'"300"', b'" 300"']
+    nums += [b'7x', b'7 k', b'k', b'-1', b'+300', b'-7k', b' 300', b'3e3', b'0x100', b'1.5k', b'', b'12kk', b'12mk', b'007', b'0300', b'300 ', b'"300"', b'" 300"',
+             # signed input: never a value, never undefined behaviour
+             b'-9999999999999999k', b'-99999999999999m', b'-9223372036854775808', b'-9223372036854775809k', b'-0', b'-300', b'+9999999999999999k', b'--5', b'-k']
     return {b'message_format': strings, b'filter_chain': strings, b'syslog_ident': strings, b'error_logging': bools,
             b'syslog_facility': fac + near, b'syslog_level': lvl + near, b'output': outv,
             b'datasource_message_max_length': nums, b'log_message_max_length': nums}
